@@ -562,11 +562,23 @@ type wireOutcome struct {
 	fields     []rc.LenField
 	recFields  []rc.LenField
 	reqIdx     int
+	// a concurrent call of another API on the same Conn (cutresp, conn path)
+	companion   bool
+	compStarted bool
+	compDone    bool
+	compErr     error
+	compTook    time.Duration
+	retAt       time.Duration // instant the call under test returned
 }
+
+// wireCompanion asks the next runWireCase for a second goroutine with a
+// request pending on the same Conn.
+var wireCompanion bool
 
 func runWireCase(s *Sim, k *wireKind, damage func(r *Req, frame []byte, fields []rc.LenField, out *wireOutcome) []byte, measure bool) (*wireEnv, *wireOutcome, func()) {
 	e := wireCluster(s, k)
-	out := &wireOutcome{}
+	out := &wireOutcome{companion: wireCompanion}
+	wireCompanion = false
 	armed := false
 	seen := 0
 	var lastFields []rc.LenField
@@ -642,8 +654,25 @@ func runWireCase(s *Sim, k *wireKind, damage func(r *Req, frame []byte, fields [
 		}
 		armed = true
 		t0 := s.Now()
+		if out.companion && k.path == "conn" {
+			// a second goroutine has a request of another API pending on the
+			// same connection while the response of the first is damaged
+			conn := e.conn
+			out.compStarted = true
+			s.Go("companion", func() {
+				c0 := s.Now()
+				if k.api == 3 {
+					_, out.compErr = conn.ReadLastOffset()
+				} else {
+					_, out.compErr = conn.ReadPartitions("wt")
+				}
+				out.compTook = s.Now() - c0
+				out.compDone = true
+			})
+		}
 		out.wrong, out.err = k.call(e)
 		out.took = s.Now() - t0
+		out.retAt = s.Now()
 		armed = false
 		if measure {
 			var m1 runtime.MemStats
@@ -655,7 +684,7 @@ func runWireCase(s *Sim, k *wireKind, damage func(r *Req, frame []byte, fields [
 		}
 	})
 	finish := func() {}
-	s.DoneWhen(func() bool { return done })
+	s.DoneWhen(func() bool { return done && (!out.compStarted || out.compDone) })
 	return e, out, finish
 }
 
@@ -681,6 +710,8 @@ func cutrespScenario(s *Sim, params map[string]string) {
 	}
 	modeName := []string{"EOF", "RST"}[mode]
 	cutAt := -1
+	// every third case has a second goroutine waiting on the same connection
+	wireCompanion = k.path == "conn" && (idx/2)%3 == 1
 	e, out, _ := runWireCase(s, k, func(r *Req, frame []byte, _ []rc.LenField, out *wireOutcome) []byte {
 		if len(frame) > cutMaxLen {
 			s.Fail("SIM", "corpus-too-long", "%s: response of %d bytes exceeds the enumerated range", k.name, len(frame))
@@ -719,14 +750,24 @@ func cutrespScenario(s *Sim, params map[string]string) {
 		if out.took > 4*time.Second+100*time.Millisecond {
 			s.Fail("C17", "R1-late", "%s: the call returned after %v (deadline 4s)", desc, out.took)
 		}
+		if out.compStarted {
+			s.Count("concurrent-call-on-the-connection")
+			if !out.compDone {
+				s.Fail("C17", "R1-concurrent-call-hung", "%s: another call pending on the same connection (from a second goroutine) had not returned when the run ended (%s at %v; the connection's deadline is 3s)", desc, s.Ended, s.Now())
+			} else if out.compTook > 4*time.Second+100*time.Millisecond {
+				s.Fail("C17", "R1-late", "%s: another call pending on the same connection returned after %v (deadline 3s)", desc, out.compTook)
+			}
+		}
 		if cutAt >= 0 && out.conn != nil && out.err != nil {
 			// R4: the connection is not used again
 			if out.conn.BytesOut != out.outBefore {
 				s.Fail("C17", "R4-conn-reused", "%s: %d more bytes were written on the broken connection after the call failed", desc, out.conn.BytesOut-out.outBefore)
 			}
 			for _, r := range e.cl.Journal {
-				if r.Conn == out.conn && r.Idx > out.reqIdx {
-					s.Fail("C17", "R4-conn-reused", "%s: request %s #%d was sent on the broken connection afterwards", desc, r.API.Name, r.Idx)
+				// (a request of the concurrent caller that was already under
+				// way when the call failed is not a reuse)
+				if r.Conn == out.conn && r.Idx > out.reqIdx && r.At > out.retAt+e.n.MaxLatency {
+					s.Fail("C17", "R4-conn-reused", "%s: request %s #%d was sent on the broken connection after the call had failed at %v (it arrived at %v)", desc, r.API.Name, r.Idx, out.retAt, r.At)
 					break
 				}
 			}
